@@ -765,9 +765,18 @@ impl Server {
                             should_close = true;
                         }
                         
-                        // Handle SYNC/PSYNC commands that need connection access
+                        // Handle SYNC/PSYNC commands that need connection access. They are
+                        // served here, ahead of process_frame and its authentication gate, so
+                        // the gate is applied here too: an unauthenticated client falls
+                        // through to process_frame and gets NOAUTH
                         if command == "SYNC" || command == "PSYNC" {
-                            sync_response = Some(self.handle_sync_command(&command, parts, id)?);
+                            let authenticated = self.config.password.is_none()
+                                || self.connections.with_connection(id, |conn| {
+                                    conn.state == ConnectionState::Authenticated
+                                }).unwrap_or(false);
+                            if authenticated {
+                                sync_response = Some(self.handle_sync_command(&command, parts, id)?);
+                            }
                         }
                     }
                 }
